@@ -17,6 +17,7 @@ import JanetModel.Peg.BackrefLemmas
 import JanetModel.Peg.CompileEntry
 import JanetModel.Peg.CompileFlag
 import JanetModel.Peg.Skel
+import JanetModel.Peg.FuelMono
 
 namespace JanetModel.Props.C12
 open JanetModel.Peg
@@ -515,6 +516,46 @@ def matchedEnd (r : MRes) : Option Nat :=
 example :
     matchedEnd (opMatcher { text := [97, 97], args := [], hasBackref := true } (decode ⟨#[7, 2, 4, 9, 13, 7, 1, 1, 1, 23, 1], #[]⟩) 0 50 1024 0) = some 2
     ∧ matchedEnd (opMatcher { text := [97, 97], args := [], hasBackref := false } (decode ⟨#[7, 2, 4, 9, 13, 7, 1, 1, 1, 23, 1], #[]⟩) 0 50 1024 0) = none := by
+  decide
+
+/-! ### fuel is a model artefact -/
+
+/-- **op_run_fuel_mono.**  The C `peg_rule` has no fuel; the model's `Op.run` has.  For EVERY program (`fetch`: bytecode or
+    source), environment, rule, state, position and fuels `f ≤ g`: an answer of `Op.run` at fuel `f` other than `Err.fuel` is the
+    answer at fuel `g` - "the model's fuel sufficed" is a property of the answer alone, and the correspondence harness (which
+    runs the model at one generous fuel) observes THE answer of the model, not an artefact of the fuel it chose.
+    Proof: `Except.bind` and all eight loops of `Op` are monotone for the flat order with `Err.fuel` as bottom (`Op.FLe`), hence
+    all 37 cases of `Op.step` (`Op.step_mono`), hence `Op.run` by induction on the fuel (Peg/FuelMono.lean). -/
+theorem op_run_fuel_mono {ρ : Type} (E : Env) (fetch : ρ → Option (Instr ρ)) (f g : Nat) (hfg : f ≤ g) (r : ρ) (s : St)
+    (pos : Nat) (hne : Op.run E fetch f r s pos ≠ .error .fuel) : Op.run E fetch g r s pos = Op.run E fetch f r s pos :=
+  Op.run_fuel_mono E fetch f g hfg r s pos hne
+
+/-- **op_run_fuel_unique.**  Any two fuels that suffice give the same answer: the fuel-free meaning of a PEG program under the
+    operational model is unique. -/
+theorem op_run_fuel_unique {ρ : Type} (E : Env) (fetch : ρ → Option (Instr ρ)) (f g : Nat) (r : ρ) (s : St) (pos : Nat)
+    (hf : Op.run E fetch f r s pos ≠ .error .fuel) (hg : Op.run E fetch g r s pos ≠ .error .fuel) :
+    Op.run E fetch f r s pos = Op.run E fetch g r s pos :=
+  Op.run_fuel_unique E fetch f g r s pos hf hg
+
+/-- one opcode: a better child runner and one more unit of loop fuel keep every answer other than `Err.fuel` (all 37 cases) -/
+theorem op_step_mono {ρ : Type} (E : Env) {k k' : OK ρ} (h : Op.KLe k k') (n : Nat) (i : Instr ρ) (s : St) (pos : Nat) :
+    Op.FLe (Op.step E k n i s pos) (Op.step E k' (n + 1) i s pos) :=
+  Op.step_mono E h n i s pos
+
+/-- non-vacuity: `(% (<- "a"))` = [ACCUMULATE 3 0; CAPTURE 6 0; LITERAL 1 'a'] on "a": fuel 2 is too little (the answer IS
+    `Err.fuel`), fuel 3 suffices (the answer is a match ending at 1), so the hypothesis of `op_run_fuel_mono` holds at f = 3 -/
+def fuelTag (r : ORes) : Nat :=
+  match r with
+  | .error .fuel => 0
+  | .error _ => 1
+  | .ok (none, _) => 2
+  | .ok (some p, _) => 3 + p
+
+example :
+    fuelTag (Op.run { text := [97], args := [] , hasBackref := false } (decode ⟨#[17, 3, 0, 13, 6, 0, 0, 1, 97], #[]⟩) 2 0
+      (initSt { text := [97], args := [], hasBackref := false } 1024) 0) = 0
+    ∧ fuelTag (Op.run { text := [97], args := [], hasBackref := false } (decode ⟨#[17, 3, 0, 13, 6, 0, 0, 1, 97], #[]⟩) 3 0
+      (initSt { text := [97], args := [], hasBackref := false } 1024) 0) = 4 := by
   decide
 
 end JanetModel.Props.C12
